@@ -31,5 +31,7 @@ def simple(engine, cfg, **kw):
 PLANS = {
     "C01": {"level": "exploration", "runs": simple("core", "asm-default")},
     "C02": {"level": "model_checking", "runs": simple("core", "asm-default")},
+    "C03": {"level": "model_checking", "runs": simple("core", "asm-default")},
+    "C09": {"level": "exploration", "runs": simple("core", "asm-default")},
     "C10": {"level": "model_checking", "runs": simple("core", "asm-default")},
 }
